@@ -2,3 +2,4 @@ import Driver.Util
 import Driver.Graph
 import Driver.Container
 import Driver.Coll
+import Driver.Mw
